@@ -98,6 +98,8 @@ def build_line(line_spec, chars, line_id, y=40, width=200):
     frames = int(line_spec['frames'])
     dense = line_dense_logits(line_spec['seed'], frames, len(chars), line_spec.get('amb', 0.4), line_spec.get('range', 'std'))
     logits = sparsify_like_engine(dense)
+    if line_spec.get('dtype') == 'float64':
+        logits = logits.astype(np.float64)       # e.g. logits merged or post-processed in double precision
     coords = line_spec.get('coords')
     if coords == 'none':
         logit_coords = [None, None]
@@ -118,7 +120,7 @@ def build_line(line_spec, chars, line_id, y=40, width=200):
         logits=logits,
         characters=_char_table(chars, line_spec.get('chars_variant')) + [ZWSP],
         logit_coords=logit_coords,
-        index=None)
+        index=line_spec.get('index'))
 
 
 def build_layout(page_spec, chars):
